@@ -84,8 +84,12 @@ def mc_jobs(wd, thorough):
     # close-delimited response towards an HTTP/1.1 client
     jobs.append(("close", cfg(wd, "mc_close.cfg", spec="FairSpec", req=(1, 0), resp=(2, 0), close=(1,), b=1, k=2, extra=LIVE)))
     # two streams in opposite directions over shared connections (the shape of the head-of-line finding)
-    jobs.append(("n2_h2h2", cfg(wd, "mc_n2_h2h2.cfg", n=2, front="h2", back="h2", req=(3, 0), resp=(0, 3), b=1, k=2, w0=1)))
-    jobs.append(("n2_h2h1", cfg(wd, "mc_n2_h2h1.cfg", n=2, front="h2", back="h1", req=(2, 0), resp=(0, 2), b=1, k=2, w0=1)))
+    if thorough:
+        jobs.append(("n2_h2h2", cfg(wd, "mc_n2_h2h2.cfg", n=2, front="h2", back="h2", req=(3, 0), resp=(0, 3), b=1, k=2, w0=1)))
+        jobs.append(("n2_h2h1", cfg(wd, "mc_n2_h2h1.cfg", n=2, front="h2", back="h1", req=(2, 0), resp=(0, 2), b=1, k=2, w0=1)))
+    else:
+        jobs.append(("n2_h2h2", cfg(wd, "mc_n2_h2h2.cfg", n=2, front="h2", back="h2", req=(2, 0), resp=(0, 2), b=1, k=2, w0=1)))
+        jobs.append(("n2_h2h1", cfg(wd, "mc_n2_h2h1.cfg", n=2, front="h2", back="h1", req=(1, 0), resp=(0, 2), b=1, k=2, w0=1)))
     # senders that give up
     jobs.append(("aborts", cfg(wd, "mc_aborts.cfg", front="h2", back="h1", req=(2, 0), resp=(2, 0), b=2, k=1, w0=1, ws=(1,), aborts=True)))
     if thorough:
